@@ -14,11 +14,15 @@ pub struct Case {
     /// > 0: instead of a history, the scenario of props/scale.rs with this many events of one author
     #[serde(default)]
     pub scale: u32,
+    /// > 0: the first 12 operations are also run in a traced child with up to this many injected system-call
+    /// failures, one per run (odd: on the block file system)
+    #[serde(default)]
+    pub inject: u16,
 }
 
 pub struct C18;
 
-fn giftwrap(author_i: u8, target: u8, shape: u8, t: u64) -> GenEvent {
+pub fn giftwrap(author_i: u8, target: u8, shape: u8, t: u64) -> GenEvent {
     // kind 1059 whose p tag names `target` first / in a second p tag / only as a non-first value
     let pk = author(target);
     let other = crate::model::hex(&[0x77; 32]);
@@ -51,7 +55,7 @@ impl Prop for C18 {
         "C18"
     }
     fn rule(&self) -> String {
-        "Cases: histories of 0..30 (thorough 0..100) operations: stores over all kinds incl. ephemeral ones and gift wraps (kind 1059 whose 'p' tag names a pool author as first value of the first or second p tag, or only as a non-first value / under another tag name / followed by NUL bytes, a further character, cut by one character or in upper case - the near misses), then removal of present / absent / already removed ids and vanish of authors with zero to many events; a few deletion requests and extra-table rows so that markers exist. Oracle per Remove/Vanish: the change of the retrievable set equals the independently computed target set ({id}; {e: pubkey = P} u {e: kind 1059 and some p tag's first value = hex(P)}); every deletion marker (ids, addresses) and every extra-table row is unchanged; a removed event that is resubmitted is never refused as deleted or duplicate unless a deletion request named it; ephemeral events store Ok but are never retrievable by id nor returned by any query of the snapshot panel. Non-trivial: a removal/vanish with a non-empty target set that leaves >= 2 other retrievable events, or a vanish with a near-miss gift wrap present.".into()
+        "Cases: histories of 0..30 (thorough 0..100) operations: stores over all kinds incl. ephemeral ones and gift wraps (kind 1059 whose 'p' tag names a pool author as first value of the first or second p tag, or only as a non-first value / under another tag name / followed by NUL bytes, a further character, cut by one character or in upper case - the near misses), then removal of present / absent / already removed ids and vanish of authors with zero to many events; a few deletion requests and extra-table rows so that markers exist. Oracle per Remove/Vanish: the change of the retrievable set equals the independently computed target set ({id}; {e: pubkey = P} u {e: kind 1059 and some p tag's first value = hex(P)}); every deletion marker (ids, addresses) and every extra-table row is unchanged; a removed event that is resubmitted is never refused as deleted or duplicate unless a deletion request named it; ephemeral events store Ok but are never retrievable by id nor returned by any query of the snapshot panel. One history in 31 (its first 12 operations) is also run in a traced child process with up to 16 injected system-call failures (ENOSPC / EIO, one per run, half of the histories on ext4): a call that returns what it returns without the failure must have had its full effect, a failed store must have had none, and the end state must equal the reference history's (without the failed store). Non-trivial: a removal/vanish with a non-empty target set that leaves >= 2 other retrievable events, or a vanish with a near-miss gift wrap present.".into()
     }
     fn assumptions(&self) -> Vec<String> {
         vec!["vanish() is given an event whose only relevant field is its pubkey (the caller verifies the request).".into()]
@@ -91,8 +95,9 @@ impl Prop for C18 {
                 0..=tier.pick(30, 100),
             ),
             0u8..2,
+            prop_oneof![tier.pick(60, 24) => Just(0u16), 1 => Just(tier.pick(16u16, 40u16)), 1 => Just(tier.pick(17u16, 41u16))],
         )
-            .prop_map(|(ops, n_extra)| Case { ops, n_extra, scale: 0 })
+            .prop_map(|(ops, n_extra, inject)| Case { ops, n_extra, scale: 0, inject })
             .boxed()
     }
     fn label_floors(&self) -> Vec<(&'static str, f64)> {
@@ -108,7 +113,7 @@ impl Prop for C18 {
         vec![format!("vanish of a key with {:?} events (plus gift wraps naming it, plus 30 bystanders): every target gone by id and by query, every bystander kept, entry counts equal to what is left", crate::props::c17::scale_sizes(tier))]
     }
     fn enumerate(&self, tier: Tier) -> Vec<Case> {
-        crate::props::c17::scale_sizes(tier).into_iter().map(|n| Case { ops: Vec::new(), n_extra: 0, scale: n }).collect()
+        crate::props::c17::scale_sizes(tier).into_iter().map(|n| Case { ops: Vec::new(), n_extra: 0, scale: n, inject: 0 }).collect()
     }
     fn check(&self, c: &Case) -> Outcome {
         let mut out = Outcome::default();
@@ -310,6 +315,12 @@ impl Prop for C18 {
                 }
                 _ => {}
             }
+        }
+        drop(w);
+        if c.inject > 0 && out.fail.is_none() {
+            // removal and vanish under injected I/O failures: a call that reports success must have had its full effect
+            let short: Vec<Op> = c.ops.iter().take(12).cloned().collect();
+            crate::props::c13::inject_faults("C18", &short, c.inject as usize, c.inject % 2 == 1, true, &mut out);
         }
         out
     }
